@@ -161,6 +161,9 @@ class DiameterAssociation(object):
         self.transport.close()
         self.transport = None
 
+        #: Applications blocked in get_message() return (with None).
+        self.postprocess_recv_messages_ready.set()
+
 
     def recv_message_from_queue(self) -> None:
         while not self._stop_threads and self.transport:
@@ -282,8 +285,21 @@ class DiameterAssociation(object):
         diameter_conn_logger.debug("Acquired DiameterAssociation lock")
 
         self.postprocess_recv_messages_lock.acquire()
-        msg = self.postprocess_recv_messages.get()
+        try:
+            msg = self.postprocess_recv_messages.get_nowait()
+        except queue.Empty:
+            msg = None
         self.postprocess_recv_messages_lock.release()
+
+        if msg is None:
+            #: Woken up without a message: the connection is closing, or the
+            #: go ahead was stale. Never block here: the association lock is
+            #: held.
+            if not self._stop_threads:
+                self.postprocess_recv_messages_ready.clear()
+
+            self.lock.release()
+            return None
 
         make_logging(msg)
 
@@ -306,7 +322,9 @@ class DiameterAssociation(object):
                 diameter_conn_logger.debug("No need to wait for go ahead for "\
                                            "postprocess_recv_messages_ready")
     
-            return self.get_postprocess_recv_message()
+            msg = self.get_postprocess_recv_message()
+            if msg is not None:
+                return msg
 
 
     def tracking_events(self) -> None:
